@@ -55,9 +55,11 @@ def duo_config(seed, prop, plan=None):
     """The part of a plan that describes the second thread and the scheduler (plain data)."""
     rng = random.Random(seed ^ 0x5a5a5a5a)
     cfg = {'seed': rng.randrange(1 << 31), 'p': rng.choice([0.002, 0.01, 0.03, 0.1]), 'quantum': rng.choice([2, 8, 40, 400]),
-           'nops': rng.choice([2, 3, 5, 8]), 'kinds': DUO_OPS[prop]}
+           'nops': rng.choice([2, 3, 5, 8]), 'kinds': DUO_OPS[prop], 'cap': 2000}
     if prop == 'C18' and plan is not None:
         cfg['chain'] = plan['config']['parties'][0]['chain']
+    if prop in SHARED_KINDS:
+        cfg['shared'] = shared_config(seed, prop)
     return cfg
 
 
@@ -319,8 +321,33 @@ def _safe(o):
 
 # ------------------------------------------------------------------ the scheduler
 
+_HOT_OPS = {'STORE_ATTR', 'DELETE_ATTR', 'STORE_GLOBAL', 'DELETE_GLOBAL', 'STORE_SUBSCR', 'DELETE_SUBSCR'}
+_HOT_NAMES = {'__setattr__', 'setattr', '_ssl', 'setdefault', 'seek', 'truncate'}
+
+
+def _hot_lines(code):
+    """Lines of a code object that write to something other than a local variable (attribute, item or
+    module global), rebind through __setattr__, rewind a stream, or call into OpenSSL through ctypes (which
+    releases the interpreter lock): the places where a real pre-emption changes what another thread sees."""
+    import dis
+    hot = set()
+    line = code.co_firstlineno
+    for ins in dis.get_instructions(code):
+        if ins.starts_line is not None:
+            line = ins.starts_line if not isinstance(ins.starts_line, bool) else (ins.positions.lineno or line)
+        if ins.opname in _HOT_OPS or (ins.opname in ('LOAD_ATTR', 'LOAD_METHOD', 'LOAD_GLOBAL', 'LOAD_NAME') and ins.argval in _HOT_NAMES):
+            hot.add(line)
+    return hot
+
+
 class Duo:
     def __init__(self, cfg):
+        self.hot = cfg.get('hot', 0)          # probability of a switch right after (half of it: right before) such a line
+        self.cap = cfg.get('cap')             # at most this many switches (None: no limit)
+        self.op_cap = cfg.get('op_cap')       # ... and at most this many per operation of the first thread
+        self.op_switches = 0
+        self._hotcache = {}
+        self._after = {}
         self.rng = random.Random(cfg['seed'] * 7919 + 1)
         self.p = cfg['p']
         self.quantum = cfg['quantum']
@@ -338,14 +365,32 @@ class Duo:
 
     # thread A
     def _gA(self, frame, event, arg):
+        # once the second thread has finished there is nothing left to interleave with: new frames run untraced
+        if self.b_done or (self.cap is not None and self.switches >= self.cap):
+            return None
         return self._lA if self._lib(frame) else None
 
     def _lA(self, frame, event, arg):
-        if event == 'line' and not self.b_done and self.rng.random() < self.p:
-            self.budget = self.rng.randint(1, self.quantum)
-            self.switches += 1
-            self.semB.release()
-            self.semA.acquire()
+        if event == 'line' and not self.b_done:
+            p = self.p
+            if self.hot:
+                code = frame.f_code
+                hs = self._hotcache.get(code)
+                if hs is None:
+                    hs = self._hotcache[code] = _hot_lines(code)
+                if self._after.pop(id(frame), None):
+                    p = max(p, self.hot)
+                if frame.f_lineno in hs:
+                    self._after[id(frame)] = True
+                    p = max(p, self.hot / 2)
+            if self.rng.random() < p and (self.cap is None or self.switches < self.cap) and (self.op_cap is None or self.op_switches < self.op_cap):
+                self.budget = self.rng.randint(1, self.quantum)
+                self.switches += 1
+                self.op_switches += 1
+                self.semB.release()
+                self.semA.acquire()
+        elif event == 'return' and self._after:
+            self._after.pop(id(frame), None)
         return self._lA
 
     # thread B
@@ -362,22 +407,22 @@ class Duo:
                     self.semB.acquire()
         return self._lB
 
-    def _b_main(self, ops, out):
+    def _b_main(self, ops, out, runner=None):
         self.semB.acquire()
         sys.settrace(self._gB)
         try:
             for o in ops:
-                out.append(_safe(o))
+                out.append((runner or _safe)(o))
         finally:
             sys.settrace(None)
             self.b_done = True
             self.semA.release()
 
-    def run(self, fn_a, ops):
+    def run(self, fn_a, ops, runner=None):
         """Runs fn_a() in the calling thread and the ops in a second thread, interleaved.  Returns the
         list of B's results; whatever fn_a raises propagates after B has been brought to its end."""
         out = []
-        t = threading.Thread(target=self._b_main, args=(ops, out), name='vf-second-caller')
+        t = threading.Thread(target=self._b_main, args=(ops, out, runner), name='vf-second-caller')
         t.daemon = True
         t.start()
         old = sys.gettrace()
@@ -393,3 +438,382 @@ class Duo:
             if t.is_alive():
                 raise RuntimeError('HARNESS: second caller thread did not finish')
         return out
+
+
+# ------------------------------------------------------------------ ONE object, two threads
+#
+# The other half of what callers do with threads: both threads hold the SAME object -- an immutable
+# transaction, block, script, message, public key or filter that is only read, or one private key that
+# both sign with.  Every operation below leaves the object's value unchanged, so each thread must get what
+# it would get alone, whatever the other thread is doing inside the same object at that moment (the objects
+# are handed over cold: the first, cache-filling use is the one made under contention).
+#
+# Thread A walks through the pool and performs operations on the object it is at; thread B, whenever the
+# scheduler gives it the baton, performs an operation of its own on the object A is inside of right now.
+# Afterwards every result is compared with the same operation on a fresh equal object, run alone, and every
+# operation is repeated once more on the shared (now warm) objects.
+
+SHARED_KINDS = {
+    'C01': ['tx', 'block', 'header'],
+    'C02': ['tx', 'block', 'header'],
+    'C05': ['spend', 'key'],
+    'C09': ['tx', 'frozen'],
+    'C10': ['b58obj'],
+    'C11': ['bech32obj'],
+    'C13': ['pub', 'key'],
+    'C14': ['message', 'key'],
+    'C16': ['block', 'script'],
+    'C20': ['filter'],
+}
+
+
+def shared_config(seed, prop):
+    rng = random.Random(seed ^ 0x3c3c3c3c)
+    return {'seed': rng.randrange(1 << 31), 'p': rng.choice([0.0005, 0.002, 0.01]), 'hot': rng.choice([0.05, 0.15, 0.4, 1.0]), 'quantum': rng.choice([12, 100000, 100000]),
+            'cap': 48, 'op_cap': rng.choice([2, 4, 8]), 'nitems': rng.choice([2, 3, 5]), 'per_item': rng.choice([2, 3, 5]), 'nb': 120, 'kinds': SHARED_KINDS[prop]}
+
+
+def _valid_block(rng):
+    from ref import wire as RW
+    b = gen.gen_block(rng, 3)
+    n = rng.randint(1, 5)
+    b['txs'] = [{'version': 1, 'vin': [{'hash': '00' * 32, 'n': 0xffffffff, 'script': '5151', 'seq': 0xffffffff}], 'vout': [{'value': 5000, 'script': '51'}], 'locktime': 0, 'wit': None}]
+    b['txs'] += [{'version': 2, 'vin': [{'hash': gen.rhex(rng, 32), 'n': j, 'script': '', 'seq': j}], 'vout': [{'value': 1000 + j, 'script': rng.choice(['51', '51ae', '76a914' + '11' * 20 + '88ac', 'acacac'])}], 'locktime': 0, 'wit': None} for j in range(n)]
+    b['merkle'] = RW.block_merkle(b).hex()
+    b['time'] = 1600000000
+    return b
+
+
+def build_pool(cfg):
+    """Item descriptors (plain data)."""
+    rng = random.Random(cfg['seed'])
+    items = []
+    for _ in range(cfg['nitems']):
+        k = rng.choice(cfg['kinds'])
+        it = {'k': k}
+        if k in ('tx', 'frozen'):
+            it['spec'] = gen.gen_tx(rng, 3, 3)
+        elif k == 'block':
+            b = _valid_block(rng) if rng.random() < 0.7 else gen.gen_block(rng, 3)
+            while not b['txs']:
+                b = gen.gen_block(rng, 3)
+            it['spec'] = b
+        elif k == 'header':
+            it['spec'] = gen.gen_header(rng)
+        elif k in ('key', 'pub', 'spend', 'message'):
+            it.update(d='%064x' % rng.randrange(1, 1 << 220), comp=rng.random() < 0.6, nonce='%064x' % rng.randrange(1, 1 << 250),
+                      digest=gen.rhex(rng, 32), text=''.join(rng.choice('abc xyzäé€') for _ in range(rng.randint(0, 40))),
+                      nin=rng.randint(2, 4))
+        elif k == 'script':
+            it['hex'] = rng.choice(['51ae', '52ae', 'acacac', '76a914' + '22' * 20 + '88ac', '5121' + '02' * 33 + '51ae', 'ac4c', gen.rhex(rng, rng.randint(0, 30))])
+        elif k == 'filter':
+            it.update(n=rng.choice([1, 3, 10, 100]), fp=rng.choice([0.01, 0.0001, 0.5]), tweak=rng.randrange(1 << 32), flags=rng.choice([0, 1, 2]),
+                      elems=[gen.rhex(rng, rng.choice([1, 5, 20, 32, 36])) for _ in range(rng.randint(1, 6))], probe=gen.rhex(rng, 20))
+        elif k == 'b58obj':
+            it.update(bytes='00' * rng.choice([0, 0, 1, 3]) + gen.rhex(rng, rng.randint(0, 40)), ver=rng.randrange(256))
+        elif k == 'bech32obj':
+            it.update(ver=rng.choice([0, 0, 1, 16]), prog=gen.rhex(rng, rng.choice([20, 32])))
+        items.append(it)
+    return items
+
+
+SHARED_OPS = {
+    'tx': ['ser', 'txid', 'wtxid', 'hash', 'eq', 'stripped', 'repr'],
+    'frozen': ['ser', 'txid', 'wtxid', 'hash', 'eq', 'thaw'],
+    'block': ['ser', 'hash', 'merkle', 'weight', 'check', 'txids', 'header'],
+    'header': ['ser', 'hash', 'eq'],
+    'key': ['sign', 'sign_compact', 'pub'],
+    'spend': ['signinput'],
+    'pub': ['verify', 'verify_bad', 'valid', 'hash'],
+    'message': ['digest', 'verify', 'sign', 'ser'],
+    'script': ['sigops', 'iter', 'p2sh', 'flags'],
+    'filter': ['contains', 'ser', 'probe'],
+    'b58obj': ['str', 'bytes', 'roundtrip'],
+    'bech32obj': ['str', 'bytes', 'roundtrip'],
+}
+
+
+def make_item(it):
+    """The live object(s) for one descriptor."""
+    lib()
+    import bitcoin.core as C
+    import bitcoin.core.script as S
+    import bitcoin.core.key as K
+    k = it['k']
+    if k == 'tx':
+        return conv.tx_from_spec(it['spec'], False)
+    if k == 'frozen':
+        return C.CTransaction.from_tx(conv.tx_from_spec(it['spec'], True))
+    if k == 'block':
+        return conv.block_from_spec(it['spec'])
+    if k == 'header':
+        return conv.header_from_spec(it['spec'])
+    if k == 'script':
+        return S.CScript(bytes.fromhex(it['hex']))
+    if k == 'filter':
+        import bitcoin.bloom as BL
+        f = BL.CBloomFilter(it['n'], it['fp'], it['tweak'], it['flags'])
+        for e in it['elems']:
+            f.insert(bytes.fromhex(e))
+        return f
+    if k == 'b58obj':
+        import bitcoin.base58 as B58
+        return B58.CBase58Data.from_bytes(bytes.fromhex(it['bytes']), it['ver'])
+    if k == 'bech32obj':
+        import bitcoin.bech32 as B32
+        return B32.CBech32Data.from_bytes(it['ver'], bytes.fromhex(it['prog']))
+    EC = _ec()
+    import bitcoin.wallet as W
+    d = int(it['d'], 16)
+    pub = EC.point_encode(EC.mul(d, EC.G), it['comp'])
+    if k == 'pub':
+        return K.CPubKey(pub)
+    key = W.CKey(d.to_bytes(32, 'big'), it['comp'])
+    if k == 'key':
+        return key
+    if k == 'message':
+        import bitcoin.signmessage as SM
+        return (SM.BitcoinMessage(it['text']), key)
+    if k == 'spend':
+        spk = S.CScript([S.OP_DUP, S.OP_HASH160, C.Hash160(pub), S.OP_EQUALVERIFY, S.OP_CHECKSIG])
+        tx = C.CTransaction([C.CTxIn(C.COutPoint(bytes([j + 1]) * 32, j)) for j in range(it['nin'])], [C.CTxOut(1000, spk)])
+        return (tx, key, spk, pub)
+    raise ValueError(k)
+
+
+def apply_op(obj, it, op, salt):
+    """One value-preserving operation; returns a plain comparable value.  `salt` distinguishes the digests
+    the two threads sign, so that a signature handed to the wrong caller does not verify."""
+    lib()
+    import bitcoin.core as C
+    import bitcoin.core.script as S
+    import bitcoin.core.scripteval as SE
+    k = it['k']
+    if k in ('tx', 'frozen'):
+        if op == 'ser':
+            return obj.serialize().hex()
+        if op == 'txid':
+            return obj.GetTxid().hex()
+        if op == 'wtxid':
+            return obj.GetHash().hex()
+        if op == 'hash':
+            return hash(obj) == hash(conv.tx_from_spec(it['spec'], False))
+        if op == 'eq':
+            return obj == conv.tx_from_spec(it['spec'], False)
+        if op == 'stripped':
+            return obj.serialize(dict(include_witness=False)).hex()
+        if op == 'repr':
+            return repr(obj)
+        if op == 'thaw':
+            m = C.CMutableTransaction.from_tx(obj)
+            m.nLockTime = (m.nLockTime + 1) & 0xffffffff
+            return (m.serialize().hex(), obj.serialize().hex())
+    if k == 'block':
+        if op == 'ser':
+            return obj.serialize().hex()
+        if op == 'hash':
+            return obj.GetHash().hex()
+        if op == 'merkle':
+            return obj.calc_merkle_root().hex()
+        if op == 'weight':
+            return obj.GetWeight()
+        if op == 'txids':
+            return tuple(t.GetTxid().hex() for t in obj.vtx)
+        if op == 'header':
+            return obj.get_header().serialize().hex()
+        if op == 'check':
+            try:
+                C.CheckBlock(obj, fCheckPoW=False, cur_time=2 ** 33)
+                return 'accept'
+            except C.ValidationError as e:
+                return 'reject:' + type(e).__name__
+    if k == 'header':
+        if op == 'ser':
+            return obj.serialize().hex()
+        if op == 'hash':
+            return obj.GetHash().hex()
+        if op == 'eq':
+            return obj == conv.header_from_spec(it['spec']) and hash(obj) == hash(conv.header_from_spec(it['spec']))
+    if k == 'script':
+        if op == 'sigops':
+            return obj.GetSigOpCount(False)
+        if op == 'iter':
+            try:
+                return repr(list(obj))
+            except S.CScriptInvalidError as e:
+                return type(e).__name__
+        if op == 'p2sh':
+            return bytes(obj.to_p2sh_scriptPubKey()).hex()
+        if op == 'flags':
+            return (obj.is_p2sh(), obj.is_push_only(), obj.is_valid(), obj.is_unspendable(), obj.is_witness_scriptpubkey())
+    if k == 'filter':
+        if op == 'contains':
+            return tuple(bool(obj.contains(bytes.fromhex(e))) for e in it['elems'])
+        if op == 'ser':
+            return obj.serialize().hex()
+        if op == 'probe':
+            return bool(obj.contains(bytes.fromhex(it['probe'])))
+    if k == 'b58obj':
+        import bitcoin.base58 as B58
+        if op == 'str':
+            return str(obj)
+        if op == 'bytes':
+            return (bytes(obj).hex(), obj.nVersion)
+        if op == 'roundtrip':
+            back = B58.CBase58Data(str(obj))
+            return (bytes(back).hex(), back.nVersion)
+    if k == 'bech32obj':
+        import bitcoin.bech32 as B32
+        if op == 'str':
+            return str(obj)
+        if op == 'bytes':
+            return (bytes(obj).hex(), obj.witver)
+        if op == 'roundtrip':
+            back = B32.CBech32Data(str(obj))
+            return (bytes(back).hex(), back.witver)
+    EC = _ec()
+    d = int(it['d'], 16)
+    Q = EC.mul(d, EC.G)
+    digest = hashlib.sha256(bytes.fromhex(it['digest']) + salt.encode()).digest()
+    z = int.from_bytes(digest, 'big')
+    if k == 'key':
+        if op == 'pub':
+            return bytes(obj.pub).hex()
+        if op == 'sign':
+            sig = obj.sign(digest)
+            try:
+                r, s_ = EC.der_decode_strict(sig)
+            except Exception as e:            # noqa: BLE001
+                return 'not-DER:' + type(e).__name__
+            return ('valid', EC.verify(Q, z, r, s_), 'low-s', s_ <= EC.N // 2)
+        if op == 'sign_compact':
+            sig, rec = obj.sign_compact(digest)
+            r, s_ = int.from_bytes(sig[:32], 'big'), int.from_bytes(sig[32:], 'big')
+            return ('valid', EC.verify(Q, z, r, s_), 'recovers', EC.recover(z, r, s_, rec) == Q)
+    if k == 'pub':
+        r, s_, rec = EC.sign_with_k(d, z, int(it['nonce'], 16) % (EC.N - 1) + 1)
+        if r == 0 or s_ == 0:
+            return 'degenerate'
+        r, s_, rec = EC.low_s(r, s_, rec)
+        sig = EC.der_encode(r, s_)
+        if op == 'verify':
+            return obj.verify(digest, sig)
+        if op == 'verify_bad':
+            return obj.verify(hashlib.sha256(digest).digest(), sig)
+        if op == 'valid':
+            return (obj.is_valid, obj.is_fullyvalid, obj.is_compressed)
+        if op == 'hash':
+            import bitcoin.core.key as K
+            return hash(obj) == hash(K.CPubKey(bytes(obj)))
+    if k == 'message':
+        import base64
+        import bitcoin.signmessage as SM
+        import bitcoin.wallet as W
+        msg, key = obj
+        ref_digest = hashlib.sha256(hashlib.sha256(_msg_preimage(it['text'])).digest()).digest()
+        if op == 'digest':
+            return (msg.GetHash().hex(), msg.GetHash() == ref_digest)
+        if op == 'ser':
+            return msg.serialize().hex()
+        zz = int.from_bytes(ref_digest, 'big')
+        addr = W.P2PKHBitcoinAddress.from_pubkey(EC.point_encode(Q, it['comp']))
+        if op == 'verify':
+            r, s_, rec = EC.sign_with_k(d, zz, int(it['nonce'], 16) % (EC.N - 1) + 1)
+            if r == 0 or s_ == 0:
+                return 'degenerate'
+            r, s_, rec = EC.low_s(r, s_, rec)
+            sig = base64.b64encode(bytes([27 + rec + (4 if it['comp'] else 0)]) + r.to_bytes(32, 'big') + s_.to_bytes(32, 'big'))
+            return SM.VerifyMessage(addr, msg, sig)
+        if op == 'sign':
+            raw = base64.b64decode(SM.SignMessage(key, msg))
+            r, s_ = int.from_bytes(raw[1:33], 'big'), int.from_bytes(raw[33:65], 'big')
+            return ('valid', EC.verify(Q, zz, r, s_), 'recovers', EC.recover(zz, r, s_, (raw[0] - 27) & 3) == Q)
+    if k == 'spend':
+        tx, key, spk, pub = obj
+        i = int(hashlib.sha256(salt.encode()).digest()[0]) % len(tx.vin)
+        h = S.SignatureHash(spk, tx, i, S.SIGHASH_ALL)
+        sig = key.sign(h) + bytes([S.SIGHASH_ALL])
+        m = C.CMutableTransaction.from_tx(tx)
+        m.vin[i].scriptSig = S.CScript([sig, pub])
+        try:
+            SE.VerifyScript(m.vin[i].scriptSig, spk, m, i)
+            return (i, 'accept')
+        except C.ValidationError as e:
+            return (i, 'reject:' + type(e).__name__)
+    raise ValueError((k, op))
+
+
+def _msg_preimage(text):
+    def vs(b):
+        n = len(b)
+        return (bytes([n]) if n < 0xfd else b'\xfd' + struct.pack('<H', n)) + b
+    return vs(b'Bitcoin Signed Message:\n') + vs(text.encode('utf8'))
+
+
+def _apply_safe(obj, it, op, salt):
+    try:
+        return ('ok', apply_op(obj, it, op, salt))
+    except Exception as e:            # noqa: BLE001 - whatever the library raises is the result
+        return ('exc', type(e).__name__)
+
+
+def run_shared(cfg):
+    """Both threads on one pool of objects.  Returns (records, switches) where each record is
+    (thread, item index, op, salt, result during, result alone on a fresh equal object)."""
+    from . import seams
+    items = build_pool(cfg)
+    pool = [make_item(it) for it in items]
+    rngA = random.Random(cfg['seed'] + 1)
+    rngB = random.Random(cfg['seed'] + 2)
+    cur = [0]
+    recA, recB = [], []
+    src = seams.NonceSource()
+    nrng = random.Random(cfg['seed'] + 3)
+    src.default = nrng.randrange(1, 1 << 255)
+    src.queue = [nrng.randrange(1, 1 << 255) for _ in range(64)]
+    seams.install_nonce(src)
+    try:
+        def fn_a():
+            order = list(range(len(items)))
+            rngA.shuffle(order)
+            n = 0
+            for i in order:
+                cur[0] = i
+                for _ in range(cfg['per_item']):
+                    op = rngA.choice(SHARED_OPS[items[i]['k']])
+                    salt = 'A%d' % n
+                    n += 1
+                    D.op_switches = 0
+                    recA.append((i, op, salt, _apply_safe(pool[i], items[i], op, salt)))
+
+        class BOp(dict):
+            pass
+        D = Duo(cfg)
+        nb = [0]
+
+        def b_op(_o):
+            if D.a_done:
+                return None        # the first thread has finished: nothing is contended any more
+            i = cur[0]
+            op = rngB.choice(SHARED_OPS[items[i]['k']])
+            salt = 'B%d' % nb[0]
+            nb[0] += 1
+            recB.append((i, op, salt, _apply_safe(pool[i], items[i], op, salt)))
+            # at most one complete operation per hand-over: back to the first thread, which is still parked
+            # at the line where it was pre-empted
+            if not D.a_done:
+                D.semA.release()
+                D.semB.acquire()
+            return None
+        D.run(fn_a, [None] * cfg['nb'], b_op)
+        out = []
+        for who, rec in (('first', recA), ('second', recB)):
+            for i, op, salt, got in rec:
+                out.append((who, i, op, salt, got, _apply_safe(make_item(items[i]), items[i], op, salt)))
+        # once more on the shared objects, now warm and no longer contended
+        for i, it in enumerate(items):
+            for op in SHARED_OPS[it['k']]:
+                out.append(('afterwards', i, op, 'W', _apply_safe(pool[i], it, op, 'W'), _apply_safe(make_item(it), it, op, 'W')))
+        return items, out, D.switches
+    finally:
+        seams.uninstall_nonce()
